@@ -98,6 +98,19 @@ def explore(run, scale=1):
             run.case((src, opt, "refused"), nontrivial=False); run.count(origin + ":refused"); run.count("refused:" + res[1][0])
             if origin == "subset" and "uint" not in src and res[1][0] not in ("Exception",):
                 run.count("subset-refused-unexpectedly:" + res[1][0])
+            # correspondence of the REFUSAL: if the program compiles without the wasm option, the generator model applied to
+            # that IR must refuse too (the model mirrors every refusal of GenerateWasm.py)
+            base = implrun.compile_src(src, optimize=opt)
+            if base[0] == "ok" and not has_uint_const(base[1]):
+                try:
+                    ps = implrun.program_sexp(base[1].IRModule.Functions, base[1].IRModule.Globals)
+                except BaseException:
+                    ps = None
+                if ps is not None and d.ask("irprog " + ps) == "ok":
+                    g = d.ask("wasmgen")
+                    run.count("refusal:" + ("model-refuses-too" if not g.startswith("ok ") else "model-emits"))
+                    if g.startswith("ok "):
+                        run.mismatch("generator-model-refusal", dict(source=src, optimize=opt), "emits " + g[3:60], "refuses: " + res[2][:100])
             continue
         check_bytes(run, d, src, opt, res, origin)
     d.close()
